@@ -8,3 +8,8 @@
 (assert (= (tlen tnil) 0))
 (assert (forall ((t Trace) (k Int) (a Int) (b Int) (c Int) (s Str)) (! (= (tlen (tsnoc t k a b c s)) (+ (tlen t) 1)) :pattern ((tsnoc t k a b c s)))))
 (assert (forall ((t Trace)) (! (>= (tlen t) 0) :pattern ((tlen t)))))
+; t is an initial segment of u
+(declare-fun tprefix (Trace Trace) Bool)
+(assert (forall ((t Trace)) (! (tprefix t t) :pattern ((tprefix t t)))))
+(assert (forall ((a Trace) (b Trace) (k Int) (x Int) (y Int) (z Int) (s Str)) (! (=> (tprefix a b) (tprefix a (tsnoc b k x y z s))) :pattern ((tprefix a (tsnoc b k x y z s))))))
+(assert (forall ((a Trace) (b Trace) (c Trace)) (! (=> (and (tprefix a b) (tprefix b c)) (tprefix a c)) :pattern ((tprefix a b) (tprefix b c)))))
